@@ -61,8 +61,20 @@ TIERS = {
 }
 
 
-def stage1(tier, stats):
+# what each property needs from this pipeline (everything, when a property is not listed)
+FOCUS = {
+    "C05": dict(mc={"accept", "accept2", "restart-safe"},
+                gen={"cover_base", "cover_accept", "cover_accept2", "cover_impostor", "script_impostor", "script_quick", "script_deep", "sim_impostor", "sim_mixed"},
+                timed=False),
+    "C07": dict(mc={"base-live", "restart-live", "restart-safe"},
+                gen={"cover_base", "script_quick", "script_deep", "sim_restart", "sim_rekey", "sim_mixed"}, timed=True),
+    "C02": dict(mc={"accept"}, gen={"script_quick", "sim_restart", "sim_rekey", "sim_mixed"}, timed=True),
+}
+
+
+def stage1(tier, stats, pid=None):
     T = TIERS[tier]
+    focus = FOCUS.get(pid)
     ex = ThreadPoolExecutor(max_workers=8)
 
     def mc(name, cfg, workers):
@@ -90,8 +102,8 @@ def stage1(tier, stats):
             raise core.Inconclusive("generator %s produced nothing" % fam)
         return fam, bs
 
-    mcf = [ex.submit(mc, *m) for m in T["mc"]]
-    gf = [ex.submit(gen, fam) for fam in GEN]
+    mcf = [ex.submit(mc, *m) for m in T["mc"] if not focus or m[0] in focus["mc"]]
+    gf = [ex.submit(gen, fam) for fam in GEN if not focus or fam in focus["gen"]]
     behs = {fam: bs for fam, bs in (f.result() for f in gf) if bs}
     return behs, mcf, ex
 
@@ -105,18 +117,19 @@ def classify(op):
     return None
 
 
-def run_pipeline(tier, replay_behaviours=None):
+def run_pipeline(tier, replay_behaviours=None, pid=None):
     t0 = time.time()
+    want_timed = replay_behaviours is None and (pid not in FOCUS or FOCUS[pid]["timed"])
     stats = dict(mc={}, behaviours={}, events=0, trace_states=0, drift=0, drift_samples=[], settle=dict(ok=0, failed=0, max_ms=0, retried=0))
     d = core.scratch("chan")
     binp = core.go_build("chanreplay")
     mcf, ex = [], None
     if replay_behaviours is None:
-        behs, mcf, ex = stage1(tier, stats)
+        behs, mcf, ex = stage1(tier, stats, pid)
     else:
         behs = replay_behaviours
     timed_ex = ThreadPoolExecutor(max_workers=1)
-    timed_fut = timed_ex.submit(run_timed, binp, d) if replay_behaviours is None else None
+    timed_fut = timed_ex.submit(run_timed, binp, d) if want_timed else None
     allb, bid = {}, 0
     p = os.path.join(d, "beh.ndjson")
     with open(p, "w") as f:
@@ -158,7 +171,7 @@ def run_pipeline(tier, replay_behaviours=None):
                 op, ev["ev"], fam, beh, lineno, (", panic: " + ev.get("panicv", "")) if ev.get("panic") else "")
             violations.append((pid, key, what, dict(behaviour=allb[beh], event={k: ev[k] for k in ev if k not in ("expa", "expb")}, operator=op)))
     # timed scenarios (ChannelTime.tla): keep-alive, rekey-by-time, replay across rotation
-    if replay_behaviours is None:
+    if timed_fut is not None:
         tres = timed_fut.result()
         stats["timed"] = tres["stats"]
         violations.extend(tres["violations"])
@@ -215,7 +228,7 @@ def check(pid, tier, replay=None):
         with open(replay) as f:
             rp = json.load(f)["payload"]["behaviour"]
         rb = {rp["family"]: [rp]}
-    stats, violations = run_pipeline(tier, rb)
+    stats, violations = run_pipeline(tier, rb, pid)
     mine, seen = [], set()
     for (p, key, what, payload) in violations:
         if p != pid or key in seen:
